@@ -5,6 +5,7 @@ import (
 	"fmt"
 	"math/rand"
 	"reflect"
+	"sort"
 	"strconv"
 	"strings"
 	"sync"
@@ -197,6 +198,7 @@ func fromGo(x interface{}) JVal {
 	case reflect.Map:
 		out := JVal{K: "map"}
 		keys := rv.MapKeys()
+		sort.Slice(keys, func(i, j int) bool { return keys[i].String() < keys[j].String() })
 		for _, k := range keys {
 			out.Ents = append(out.Ents, JEnt{Key: k.String(), V: fromGo(rv.MapIndex(k).Interface())})
 		}
